@@ -576,6 +576,7 @@ func check(id, tier string, seed uint64, cases int, budget float64, workers int)
 		}),
 		"reach_probes": mergeFaults(probes, map[string]int{
 			"two-tasks-in-same-statement-closure": int(stats["SameStmtPair"]),
+			"tasks-blocked-in-the-runtime-when-the-cancel-fired": int(stats["WokenByDone"]),
 		}),
 		"distinct_interleavings_measure": "number of distinct 64-bit hashes over the sequence of (task, site, kind) scheduling decisions and of (task, operation site) operation starts, non-trivial runs only, merged over all workers",
 		"inconclusive_runs":              inconcl,
